@@ -1460,6 +1460,8 @@ impl RepDefUnraveler {
             // Maybe there's some special logic for empty/null lists?  I'll save the headache for future me.
             todo!("Not yet supported FSL<...List<...>>");
         }
+        // Every `dimension` items become one entry of the fixed-size-list layer
+        self.num_items /= dimension as u64;
         let Some(def_levels) = self.def_levels.as_mut() else {
             return;
         };
